@@ -21,6 +21,18 @@ RetsTyped == {NoVal, I1, N1, U1, S1, B1}
 GetTyped == GetValue \cup {[g |-> "int", od |-> FALSE, d |-> NoVal], [g |-> "uint", od |-> FALSE, d |-> NoVal],
                             [g |-> "long", od |-> TRUE, d |-> MkInt("long int", P(0, 0, 0, 7))], [g |-> "bool", od |-> FALSE, d |-> NoVal],
                             [g |-> "str", od |-> TRUE, d |-> S1]}
+\* objects of user types: content = two fields; the type names are ordinary names, some of which begin like a built-in type name
+Ob(tn, a, b) == [t |-> "obj", tn |-> tn, c |-> <<a, b>>]
+ValsObj1 == {Ob("intPair", 1, 1), Ob("intPair", 1, 2), Ob("intPair", 2, 1)}
+ValsObj2 == ValsObj1 \cup {Ob("boolean_flag", 1, 1), Ob("boolean_flag", 1, 2)}
+ValsMixed == {I1, Ob("intPair", 1, 1), Ob("intPair", 1, 2)}
+Typed1 == {[ty |-> "intPair", data |-> <<42, 0, 0, 1>>]}
+Typed2 == {[ty |-> "raw", data |-> <<1>>], [ty |-> "doubleBox", data |-> <<42, 0, 255, 1>>]}
+DVals1 == {I1, B1, S1, Ob("intPair", 1, 2), Ob("boolean_flag", 2, 1), Ob("doubleBox", 3, 3), Ob("TypeA", 1, 1), Ob("unsigned int_t", 2, 2),
+           Ob("const char*Name", 1, 3), Ob("void*Handle", 2, 3), Ob("long int64", 3, 1)}
+NoKeys == {}
+Keys2 == {"k", "cfg"}
 ScopesG == {""}
+ScopesGST == {"", "s", "t"}
 ScopesGS == {"", "s"}
 =============================================================================
